@@ -199,7 +199,7 @@ def run_c15(tier):
            "evaluations": sum(1 for e in evs if e["ev"] in ("iter", "stop", "rewrite")),
            "distinct_nontrivial": sum(1 for e in evs if e["ev"] == "iter" and e["fp_changed"]),
            "rule": "Runner.tla model-checked (bounded-termination, truth of limit reasons, liveness Terminates) for Runner::run and run_eqsat; "
-                   "recorded runs with iter_limit 0..3, node limits 30/80/200/400, hooks failing at iteration 0..2; every iteration's stop "
+                   "recorded runs with iter_limit 0..3, node limits 20/40/60/100 (a hook stops run-away growth above 80 e-nodes), hooks failing at iteration 0..2; every iteration's stop "
                    "decision must be one the specification allows given the INDEPENDENT fingerprint (fp_changed => apply_rewrites returned true), "
                    "reports checked, saturation re-checked; non-trivial = iterations that changed the fingerprint",
            "stop_reasons_seen": reasons, "tlc_model": mst, "tlc_trace": st, "recorder": summ}
